@@ -58,6 +58,49 @@ pub fn c01(ctx: &Ctx) -> i32 {
     ctx.finish("exploration", cov, valid_history_assumptions(), out.violations, inconclusive)
 }
 
+/// Views-only pass of C02 for *every* level count 1..24: a small generic function (cheap to
+/// instantiate 24 times) that drives the real book and compares every getter with the recomputation.
+fn views_only<B: crate::real::RealBook>(h: &History) -> Result<u64, Failure> {
+    let mut b = B::new(h.cfg.t0, h.cfg.tick, h.cfg.trading0);
+    let mut ever_disabled = !h.cfg.trading0;
+    let mut states = 0u64;
+    for (i, op) in h.ops.iter().enumerate() {
+        if let Op::SetTrading(false) = op {
+            ever_disabled = true;
+        }
+        match op {
+            Op::Reload(_) => match B::from_json(&b.to_json(false)) {
+                Ok(nb) => b = nb,
+                Err(e) => return Err(Failure { op_index: i, monitor: "views".into(), kind: "reload_error".into(), detail: e }),
+            },
+            Op::Fork(_) | Op::Drain { .. } => {}
+            _ => {
+                if let Err(p) = crate::util::catch(|| Runner::<B>::apply_real_pub(&mut b, op)) {
+                    return Err(Failure { op_index: i, monitor: "abort".into(), kind: "panic_in_operation".into(), detail: p });
+                }
+            }
+        }
+        let orders = b.orders();
+        let exp = recompute_views(&orders, h.cfg.tick, B::LEVELS);
+        let got = b.views();
+        states += 1;
+        if exp != got {
+            return Err(Failure { op_index: i, monitor: "views".into(), kind: "view_differs_from_orders".into(), detail: format!("after {:?} with {} levels: expected {:?} observed {:?}", op, B::LEVELS, exp, got) });
+        }
+        let crossed = exp.bid_vol > 0 && exp.ask_vol > 0 && exp.bid_ask.0 >= exp.bid_ask.1;
+        if crossed && !ever_disabled {
+            return Err(Failure { op_index: i, monitor: "views".into(), kind: "crossed_book".into(), detail: format!("after {:?}: {:?}", op, exp.bid_ask) });
+        }
+    }
+    Ok(states)
+}
+
+fn views_only_dyn(h: &History) -> Result<u64, Failure> {
+    use bourse_book::OrderBook as OB;
+    macro_rules! arms { ($($n:literal),*) => { match h.cfg.levels { $( $n => views_only::<OB<$n>>(h), )* _ => Ok(0) } } }
+    arms!(1, 2, 3, 4, 5, 6, 7, 8, 9, 10, 11, 12, 13, 14, 15, 16, 17, 18, 19, 20, 21, 22, 23, 24)
+}
+
 pub fn c02(ctx: &Ctx) -> i32 {
     let mut full = Profile::full();
     full.ops = (150, 300);
@@ -78,16 +121,70 @@ pub fn c02(ctx: &Ctx) -> i32 {
         nontrivial: |c| c.max_resting > 0 && c.states_checked > 0,
         nontrivial_rule: "at least one state of the history had a non-empty side (distinct counts histories; the number of states checked is in census.states_checked)",
     };
-    let out = run_book_spec(ctx, &spec);
+    let mut out = run_book_spec(ctx, &spec);
+    // every level count 1..24 (views-only pass)
+    let per_level = ctx.tier.pick(400, 8000);
+    let mut all_levels_states = 0u64;
+    let mut levels_seen = Vec::new();
+    {
+        use std::sync::atomic::{AtomicUsize, Ordering};
+        use std::sync::Mutex;
+        let next = AtomicUsize::new(0);
+        let res: Mutex<(u64, Vec<crate::report::Violation>)> = Mutex::new((0, Vec::new()));
+        std::thread::scope(|s| {
+            for _ in 0..ctx.threads.max(1) {
+                s.spawn(|| {
+                    crate::util::install_quiet_panic_hook();
+                    loop {
+                        let k = next.fetch_add(1, Ordering::Relaxed);
+                        if k >= 24 * per_level {
+                            break;
+                        }
+                        let levels = 1 + k % 24;
+                        let mut p = Profile::full();
+                        p.ops = (60, 160);
+                        p.drain = false;
+                        p.w_reload = 1;
+                        let mut g = crate::gen::RndGen::new(crate::util::Sm::derive(ctx.seed, 0x24_0000 + k as u64), p);
+                        let mut h = g.history();
+                        h.cfg.levels = levels;
+                        match views_only_dyn(&h) {
+                            Ok(n) => res.lock().unwrap().0 += n,
+                            Err(f) => {
+                                let mut r = res.lock().unwrap();
+                                if r.1.len() < 2 {
+                                    r.1.push(crate::report::Violation {
+                                        signature: format!("C02:{}:{}", f.monitor, f.kind),
+                                        summary: format!("{} / {} at op {} ({} levels, tick {}): {}", f.monitor, f.kind, f.op_index, levels, h.cfg.tick, truncate(&f.detail, 500)),
+                                        replay: json!({"kind": "c02_views_only", "history": h, "failure": f}),
+                                    });
+                                }
+                            }
+                        }
+                    }
+                });
+            }
+        });
+        let (n, v) = res.into_inner().unwrap();
+        all_levels_states = n;
+        out.violations.extend(v);
+        for l in 1..=24 {
+            levels_seen.push(l);
+        }
+    }
     let c = &out.census;
     let inconclusive = floors(&[
+        ("all_level_counts_states", all_levels_states, 100_000),
         ("states_checked", c.states_checked, 100_000),
         ("crossed_states", c.crossed_states, 50),
         ("reloads", c.reloads, 50),
         ("modifies_effective", c.modifies_effective, 1000),
         ("partial_fills_passive", c.partial_fills_passive, 100),
     ]);
-    let cov = book_coverage(&spec, &out, "Judged after every operation: every getter (bid_ask, totals, touch volumes and counts, bid/ask levels, level-1 and level-2 records, mid_price) against values recomputed from get_orders() alone, pairwise agreement of the views, occupied levels (hook H2), and best bid < best ask while trading has never been disabled. Level counts 1,2,3,5,10,24; see census for the event counts.");
+    let cov = book_coverage(&spec, &out, "Judged after every operation: every getter (bid_ask, totals, touch volumes and counts, bid/ask levels, level-1 and level-2 records, mid_price) against values recomputed from get_orders() alone, pairwise agreement of the views, occupied levels (hook H2), and best bid < best ask while trading has never been disabled. Level counts 1,2,3,5,10,24 with the full runner, and every level count 1..24 in a views-only pass (all_level_counts_states); see census for the event counts.");
+    let mut cov = cov;
+    cov["all_level_counts_states"] = json!(all_levels_states);
+    cov["level_counts_covered"] = json!(levels_seen);
     ctx.finish("exploration", cov, valid_history_assumptions(), out.violations, inconclusive)
 }
 
@@ -283,4 +380,8 @@ pub fn c13(ctx: &Ctx) -> i32 {
     let inconclusive = floors(&[("ops_while_disabled", c.ops_while_disabled, 1000), ("market_rejected", c.market_rejected, 100), ("trades_after_reenable", c.trades_after_reenable, 100), ("toggles", c.toggles, 100)]);
     let cov = book_coverage(&spec, &out, "");
     ctx.finish("exploration", cov, valid_history_assumptions(), out.violations, inconclusive)
+}
+
+pub fn replay_views_only(h: &History) -> bool {
+    views_only_dyn(h).is_err()
 }
